@@ -34,6 +34,77 @@ UNIVERSES = {
     "thorough": [("lists", 2), ("lists3", 3), ("zeros", 3), ("nested", 1), ("objects", 2), ("strings", 2)],
 }
 
+DOCS_CFG = MODEL_CFG.replace("CONSTRAINT Emit\n", "CONSTRAINT Emit\nCONSTRAINT DocsOnly\n")
+
+
+def universe_docs(chk, universe, maxlen):
+    """TLC enumerates the documents of a universe (no diffs chosen): the raw material of the pair sweeps."""
+    r = tlc.run("DiffModel", DOCS_CFG % (maxlen, universe), workers=1, timeout=1200, name="DiffModel-docs-%s" % universe, xmx="4g")
+    if r.invariant_violated or r.error:
+        raise tlc.TLCError("DiffModel (documents of %s): %s" % (universe, (r.error or "")[:500]))
+    chk.add_model(r, "DiffModel %s MaxLen=%d, documents only" % (universe, maxlen))
+    return [dec(x) for x in r.json_lines("DOC")]
+
+
+STR_TOKENS = ("a", "b", "\n", "\r", "\x0b", "\x85", "\u2028", "\U0001F600")
+
+
+def tokenize(s):
+    return list(s)      # every token of the strings universe is one code point
+
+
+def string_neighbours(docs):
+    """all ordered pairs (a, b) of the universe where b is a with one token inserted, deleted or replaced, or with a
+    run of up to two tokens appended / prepended: the pairs an editor produces, with every line separator at every place"""
+    have = set(docs)
+    out = []
+    seen = set()
+    for a in docs:
+        ta = tokenize(a)
+        cands = set()
+        for i in range(len(ta) + 1):
+            for t in STR_TOKENS:
+                cands.add("".join(ta[:i] + [t] + ta[i:]))
+                for t2 in STR_TOKENS:
+                    if i in (0, len(ta)):
+                        cands.add("".join(ta[:i] + [t, t2] + ta[i:]))
+        for i in range(len(ta)):
+            cands.add("".join(ta[:i] + ta[i + 1:]))
+            for t in STR_TOKENS:
+                cands.add("".join(ta[:i] + [t] + ta[i + 1:]))
+        for b in cands:
+            if b != a and b in have and (a, b) not in seen:
+                seen.add((a, b))
+                out.append((a, b))
+    return out
+
+
+def string_sweep(chk, events, diff, patch, maxlen, r, n_plain):
+    """Every neighbouring pair of the strings universe is diffed and patched by nbdime; the pairs a cheap screen marks
+    (an exception, a patch result other than b, an empty diff) and a seeded sample of the others go to the TLC validation,
+    bare and as the value of an object key. The screen only selects; the verdict is DiffTrace's."""
+    docs = [d for d in universe_docs(chk, "strings", maxlen) if isinstance(d, str)]
+    pairs = string_neighbours(docs)
+    marked, plain = [], []
+    for a, b in pairs:
+        try:
+            d = diff(a, b)
+            ok = patch(a, d) == b and len(d) > 0
+        except Exception:  # noqa
+            ok = False
+        (plain if ok else marked).append((a, b))
+    r.shuffle(plain)
+    chosen = marked[:400] + plain[:n_plain]
+    for k, (a, b) in enumerate(chosen):
+        for w, wrap in enumerate((lambda t: t, lambda t: {"s": t, "k": 1})):
+            ev, d = diff_event("sw-%d-%d" % (k, w), wrap(a), wrap(b), diff, patch)
+            events.append(ev)
+            chk.count((wrap(a), wrap(b)), nontrivial=True)
+    chk.notes["string_sweep"] = {"documents": len(docs), "neighbouring_pairs_diffed_and_patched": len(pairs),
+                                 "marked_by_screen": len(marked), "forwarded_to_TLC": len(chosen) * 2}
+    return len(chosen) * 2
+
+
 C02_CLAUSES = ("Completes", "RoundTrip", "PyPatch", "PyPatchIsSpecPatch", "RepeatPatch", "DiffUnchangedByPatch", "EmptyOnlyIfSame")
 
 
@@ -218,10 +289,12 @@ def run():
                 nlong += 1
                 events.append(ev)
                 chk.count((a, b), nontrivial=True)
+    nsweep = string_sweep(chk, events, diff, patch, 3 if chk.quick else 4, r, 600 if chk.quick else 20000)
     chk.sample({"direction": "code->spec", "a": common.json.loads(common.json.dumps(dec(events[-1]["a"]))),
                 "b": dec(events[-1]["b"]), "d": safe_dec_diff(events[-1].get("d", []))})
     v = common.validate("DiffTrace", common.diff_trace_cfg(), events, batch=400, name="c02")
-    chk.add_validation(v, "DiffTrace on %d exhaustive + %d random generic pairs + %d pairs of strings with long lines" % (nexh, nrand, nlong))
+    chk.add_validation(v, "DiffTrace on %d exhaustive + %d random generic pairs + %d pairs of strings with long lines + %d events of the "
+                       "string pair sweep" % (nexh, nrand, nlong, nsweep))
     byid = {ev["tid"]: ev for ev in events}
     for tid, clauses in v.fails.items():
         classify(chk, "C02", byid[tid], clauses, C02_CLAUSES)
